@@ -1,6 +1,7 @@
 // nwv: correspondence harness driving the real narwhal code (path deps on /repo/crates/*).
 // Usage: nwv <driver> <cases.json> <out.json>
 mod codec_drv;
+mod framing_drv;
 mod gen_schema;
 
 use std::io::Write;
@@ -17,6 +18,7 @@ fn main() {
   let cases: serde_json::Value = serde_json::from_str(&input).expect("parse cases");
   let out = match args[1].as_str() {
     "codec" => codec_drv::run(&cases),
+    "framing" => framing_drv::run(&cases),
     other => {
       eprintln!("unknown driver {other}");
       std::process::exit(2);
